@@ -128,16 +128,23 @@ theorem finishInsert_children (cfg : Cfg) (s : State) (g : Id) (o : Out) :
   · rename_i s2 hm; rw [hm] at h; exact (updateRecord_same cfg s2 g).children.trans h
 
 /-- an operation whose lists are the old ones, except that `g` may list some of `xs` in addition -/
-def Adds (s s' : State) (xs : List Id) : Prop := ∀ c y, y ∈ s'.children c → y ∈ s.children c ∨ y ∈ xs
+def Adds (s s' : State) (g : Id) (xs : List Id) : Prop :=
+  ∀ c y, y ∈ s'.children c → y ∈ s.children c ∨ (c = g ∧ y ∈ xs)
 
-theorem Adds.refl (s : State) (xs : List Id) : Adds s s xs := fun _ _ h => .inl h
-theorem Adds.of_same {s s' : State} (h : SameTree s s') (xs : List Id) : Adds s s' xs := by
+theorem Adds.refl (s : State) (g : Id) (xs : List Id) : Adds s s g xs := fun _ _ h => .inl h
+theorem Adds.of_same {s s' : State} (h : SameTree s s') (g : Id) (xs : List Id) : Adds s s' g xs := by
   intro c y hy; rw [h.children] at hy; exact .inl hy
-theorem Adds.trans {a b c : State} {xs : List Id} (h1 : Adds a b xs) (h2 : Adds b c xs) : Adds a c xs := by
-  intro g y hy
-  rcases h2 g y hy with h | h
-  · exact h1 g y h
+theorem Adds.trans {a b c : State} {g : Id} {xs : List Id} (h1 : Adds a b g xs) (h2 : Adds b c g xs) :
+    Adds a c g xs := by
+  intro k y hy
+  rcases h2 k y hy with h | h
+  · exact h1 k y h
   · exact .inr h
+theorem Adds.subset {s s' : State} {g : Id} {xs : List Id} (h : Adds s s' g xs) {c y : Id}
+    (hy : y ∈ s'.children c) (hx : ¬ (c = g ∧ y ∈ xs)) : y ∈ s.children c := by
+  rcases h c y hy with h | h
+  · exact h
+  · exact absurd h hx
 
 theorem opExtend_frame (cfg : Cfg) (s : State) (g : Id) (xs : List Id) : KindFrame s (opExtend cfg s g xs).1 := by
   unfold opExtend
@@ -145,16 +152,18 @@ theorem opExtend_frame (cfg : Cfg) (s : State) (g : Id) (xs : List Id) : KindFra
   · exact (refuse_same s _).kindFrame
   · exact (setChildren_frame s g _).trans (finishInsert_frame cfg _ g _)
 
-theorem opExtend_adds (cfg : Cfg) (s : State) (g : Id) (xs : List Id) : Adds s (opExtend cfg s g xs).1 xs := by
+theorem opExtend_adds (cfg : Cfg) (s : State) (g : Id) (xs : List Id) : Adds s (opExtend cfg s g xs).1 g xs := by
   unfold opExtend
   split
-  · exact Adds.of_same (refuse_same s _) xs
+  · exact Adds.of_same (refuse_same s _) g xs
   · intro c y hy
     rw [finishInsert_children] at hy
     simp only [setChildren, upd] at hy
     split at hy
     · rename_i e; subst e
-      exact List.mem_append.mp hy
+      rcases List.mem_append.mp hy with h | h
+      · exact .inl h
+      · exact .inr ⟨rfl, h⟩
     · exact .inl hy
 
 theorem opAppend_frame (cfg : Cfg) (s : State) (g x : Id) : KindFrame s (opAppend cfg s g x).1 := by
@@ -163,10 +172,10 @@ theorem opAppend_frame (cfg : Cfg) (s : State) (g x : Id) : KindFrame s (opAppen
   · exact KindFrame.refl s
   · exact opExtend_frame cfg s g [x]
 
-theorem opAppend_adds (cfg : Cfg) (s : State) (g x : Id) : Adds s (opAppend cfg s g x).1 [x] := by
+theorem opAppend_adds (cfg : Cfg) (s : State) (g x : Id) : Adds s (opAppend cfg s g x).1 g [x] := by
   unfold opAppend
   split
-  · exact Adds.refl s _
+  · exact Adds.refl s _ _
   · exact opExtend_adds cfg s g [x]
 
 theorem opInsert_frame (cfg : Cfg) (s : State) (g : Id) (k : Int) (x : Id) : KindFrame s (opInsert cfg s g k x).1 := by
@@ -181,7 +190,7 @@ theorem opRemove_frame (cfg : Cfg) (s : State) (g x : Id) : KindFrame s (opRemov
   · exact (setChildren_frame s g _).trans (updateRecord_same cfg _ g).kindFrame
   · exact KindFrame.refl s
 
-theorem opRemove_adds (cfg : Cfg) (s : State) (g x : Id) (xs : List Id) : Adds s (opRemove cfg s g x).1 xs := by
+theorem opRemove_adds (cfg : Cfg) (s : State) (g x : Id) (k : Id) (xs : List Id) : Adds s (opRemove cfg s g x).1 k xs := by
   unfold opRemove finishRemove
   split
   · intro c y hy
@@ -190,7 +199,7 @@ theorem opRemove_adds (cfg : Cfg) (s : State) (g x : Id) (xs : List Id) : Adds s
     split at hy
     · rename_i e; subst e; exact .inl (List.mem_of_mem_erase hy)
     · exact .inl hy
-  · exact Adds.refl s xs
+  · exact Adds.refl s k xs
 
 theorem detach_frame (cfg : Cfg) (s : State) (x p : Id) : KindFrame s (detach cfg s x p).1 := by
   unfold detach
@@ -198,11 +207,11 @@ theorem detach_frame (cfg : Cfg) (s : State) (x p : Id) : KindFrame s (detach cf
   · exact opRemove_frame cfg s p x
   · exact KindFrame.refl s
 
-theorem detach_adds (cfg : Cfg) (s : State) (x p : Id) (xs : List Id) : Adds s (detach cfg s x p).1 xs := by
+theorem detach_adds (cfg : Cfg) (s : State) (x p : Id) (k : Id) (xs : List Id) : Adds s (detach cfg s x p).1 k xs := by
   unfold detach
   split
-  · exact opRemove_adds cfg s p x xs
-  · exact Adds.refl s xs
+  · exact opRemove_adds cfg s p x k xs
+  · exact Adds.refl s k xs
 
 /-! ### the mutators of `GroupMixin` -/
 
